@@ -56,6 +56,11 @@ class Holder {
 @quantum function n_h(qubit a) -> void { g_h(a); }
 @quantum function n_cx(qubit a, qubit b) -> void { g_cx(b, a); }
 @quantum function n_m(qubit a) -> bit { bit res = g_m(a); return res; }
+function tf_meas() -> void { @tracked qubit w; x(w); measure w; }
+function tf_rand() -> void { @tracked qubit w; h(w); measure w; }
+function tf_unmeas() -> void { @tracked qubit w; h(w); }
+function tf_reg() -> void { @tracked qubit[2] wr; x(wr[1]); measure wr[0]; measure wr[1]; }
+function tf_part() -> void { @tracked qubit[2] wr; measure wr[1]; }
 """
 
 
@@ -160,6 +165,12 @@ def render_stmt(s, ind, out):
         for x in s[1]:
             render_stmt(x, ind + 1, out)
         out.append(f"{pad}}}")
+    elif k == "tloop":
+        _, n, nm, g, meas, iv = s
+        body = f"@tracked qubit {nm};" + (f" {g}({nm});" if g else "") + (f" measure {nm};" if meas else "")
+        out.append(f"{pad}for (int {iv} = 0; {iv} < {n}; {iv} = {iv} + 1) {{ {body} }}")
+    elif k == "thelper":
+        out.append(f"{pad}tf_{s[1]}();")
     elif k == "echo":
         out.append(f"{pad}echo({s[1]});")
     else:
@@ -401,6 +412,7 @@ class Interp:
         self.objs = {}
         self.regs = {}
         self.alias_reached = False
+        self.uid = 0
 
     def next_outcome(self, kind):
         # outcomes are consumed in order; the qubit index is checked later against the handle map
@@ -534,6 +546,42 @@ class Interp:
                 self.release_object(s[1])
         elif k == "block":
             self.nested(s[1])
+        elif k == "tloop":
+            _, n, nm, g, meas, iv = s
+            for i in range(n):
+                self.uid += 1
+                h = ["var", f"{nm}@{self.uid}"]
+                self.alloc(h, True, nm)
+                if g:
+                    self.gate(g, [h], None)
+                if meas:
+                    self.measure(h)
+                self.record_tracked("qubit " + nm, [h])
+                self.live.discard(hkey(h))
+        elif k == "thelper":
+            self.uid += 1
+            v = s[1]
+            if v in ("meas", "rand", "unmeas"):
+                h = ["var", f"w@{self.uid}"]
+                self.alloc(h, True, "w")
+                self.gate("x" if v == "meas" else "h", [h], None)
+                if v != "unmeas":
+                    self.measure(h)
+                self.record_tracked("qubit w", [h])
+                self.live.discard(hkey(h))
+            else:
+                hs = [["elem", f"wr@{self.uid}", i] for i in range(2)]
+                for h in hs:
+                    self.alloc(h, True, "wr")
+                if v == "reg":
+                    self.gate("x", [hs[1]], None)
+                    self.measure(hs[0])
+                    self.measure(hs[1])
+                else:
+                    self.measure(hs[1])
+                self.record_tracked("qubit[] wr", hs)
+                for h in hs:
+                    self.live.discard(hkey(h))
         elif k == "echo":
             pass
         else:
